@@ -97,7 +97,10 @@ def run_pt(ctx, case):
             arg = keep[0] if len(keep) == 1 else set(keep)
         inp = rho_c.reshape(dims + dims) if (j % 2 == 0) else rho
         inp_before = inp.copy()
-        out = nq.utils.partial_trace(inp, tuple(dims), arg)
+        dim_arg = [tuple(dims), list(dims), np.array(dims), np.array(dims[::-1])[::-1]][(j // 2) % 4]  # tuple / list / array / negative-stride view
+        if j % 5 == 4:
+            arg = np.array(sorted(keep)[::-1])[::-1] if j % 2 else np.array(keep)
+        out = nq.utils.partial_trace(inp, dim_arg, arg)
         ctx.close(inp, inp_before, 0, 'partial_trace does not modify its input')
         K = int(np.prod([dims[i] for i in keep]))
         ctx.require(out.shape == (K, K), 'partial trace shape', f'{dims} keep={keep}: {out.shape}')
